@@ -1,0 +1,95 @@
+//go:build verif
+
+package decoder
+
+import (
+	"fmt"
+	"reflect"
+	"unsafe"
+
+	"github.com/goccy/go-json/internal/errors"
+	"github.com/goccy/go-json/internal/runtime"
+)
+
+// Hooks for the /verif correspondence harness. Compiled only with -tags verif.
+
+func verifErrClass(err error) string {
+	switch err.(type) {
+	case *errors.UnmarshalTypeError:
+		return "err type"
+	case *errors.SyntaxError:
+		return "err syntax"
+	}
+	return "err other"
+}
+
+var verifIntTypes = map[int]reflect.Type{
+	8: reflect.TypeOf(int8(0)), 16: reflect.TypeOf(int16(0)), 32: reflect.TypeOf(int32(0)), 64: reflect.TypeOf(int64(0)),
+}
+var verifUintTypes = map[int]reflect.Type{
+	8: reflect.TypeOf(uint8(0)), 16: reflect.TypeOf(uint16(0)), 32: reflect.TypeOf(uint32(0)), 64: reflect.TypeOf(uint64(0)),
+}
+
+// VerifDecodeInt runs the buffer-mode integer decoder for the given width on buf at cursor 0
+// (buf must carry its own NUL sentinel) and reports "ok <value> <cursor>", "nostore <cursor>",
+// "err type|syntax|other" or "oob" (recovered run-time panic).
+func VerifDecodeInt(bits int, signed bool, buf []byte) (res string) {
+	defer func() {
+		if r := recover(); r != nil {
+			res = "oob"
+		}
+	}()
+	var t reflect.Type
+	if signed {
+		t = verifIntTypes[bits]
+	} else {
+		t = verifUintTypes[bits]
+	}
+	dec, err := CompileToGetDecoder(runtime.Type2RType(t))
+	if err != nil {
+		return "err compile"
+	}
+	run := func(canary uint64) (uint64, int64, error) {
+		dst := [2]uint64{canary, canary}
+		ctx := &RuntimeContext{Buf: buf, Option: &Option{}}
+		c, err := dec.Decode(ctx, 0, 0, unsafe.Pointer(&dst[0]))
+		if dst[1] != canary {
+			panic("verif: write past the destination")
+		}
+		return dst[0], c, err
+	}
+	v1, c1, err1 := run(0xA5A5A5A5A5A5A5A5)
+	if err1 != nil {
+		if v1 != 0xA5A5A5A5A5A5A5A5 {
+			return verifErrClass(err1) + " stored"
+		}
+		return verifErrClass(err1)
+	}
+	v2, _, _ := run(0x5A5A5A5A5A5A5A5A)
+	if v1 == 0xA5A5A5A5A5A5A5A5 && v2 == 0x5A5A5A5A5A5A5A5A {
+		return fmt.Sprintf("nostore %d", c1)
+	}
+	// bytes above the destination width must be untouched
+	keep := ^uint64(0)
+	if bits < 64 {
+		keep = uint64(1)<<uint(bits) - 1
+	}
+	if v1&^keep != 0xA5A5A5A5A5A5A5A5&^keep {
+		return "err wide-store"
+	}
+	if signed {
+		var sv int64
+		switch bits {
+		case 8:
+			sv = int64(int8(v1))
+		case 16:
+			sv = int64(int16(v1))
+		case 32:
+			sv = int64(int32(v1))
+		default:
+			sv = int64(v1)
+		}
+		return fmt.Sprintf("ok %d %d", sv, c1)
+	}
+	return fmt.Sprintf("ok %d %d", v1&keep, c1)
+}
